@@ -1,6 +1,8 @@
 package masks
 
 import (
+	"strings"
+
 	"github.com/mennanov/fmutils"
 	"google.golang.org/grpc/codes"
 	"google.golang.org/grpc/status"
@@ -38,9 +40,10 @@ func (f *FieldUpdater) Validate(m proto.Message) error {
 
 		// are fields mentioned in the update mask actually writable?
 		if f.writableFields != nil {
-			common := f.fullMask()
-			if len(common.Paths) != len(f.updateMask.Paths) {
-				return status.Errorf(codes.InvalidArgument, "%v mentions read-only fields", f.updateMaskFieldName)
+			for _, p := range f.updateMask.Paths {
+				if !pathCovered(f.writableFields.Paths, p) {
+					return status.Errorf(codes.InvalidArgument, "%v mentions read-only fields", f.updateMaskFieldName)
+				}
 			}
 		}
 	}
@@ -94,6 +97,16 @@ func (f *FieldUpdater) Merge(dst, src proto.Message) {
 	}
 
 	return
+}
+
+// pathCovered returns true if path is one of the writable paths or lies below one of them.
+func pathCovered(writable []string, path string) bool {
+	for _, w := range writable {
+		if path == w || strings.HasPrefix(path, w+".") {
+			return true
+		}
+	}
+	return false
 }
 
 func pruneEmpty(dst, src proto.Message, mask fmutils.NestedMask) {
